@@ -6,7 +6,7 @@ COMMON_TRUSTED = [
     "Lean compiler/runtime for the executable instantiations of the models (Float, Float32, Rat, UInt64, List, String)",
 ]
 
-HOOK_COMMITS = ["f19adfe", "71427de"]
+HOOK_COMMITS = ["f19adfe", "71427de", "9be2068"]
 
 NOT_APPLICABLE = {
     "C06": "end-to-end statistical convergence claim about the empirical law of rand/rand_distr streams: no executable model tied to the code by a "
@@ -26,7 +26,23 @@ INI = "MiniMcmcVerif.Init."
 
 IO = "MiniMcmcVerif.IO."
 
+ST = "MiniMcmcVerif.Stats."
+
 PROPS = {
+    "C13": {
+        "obligations": [ST + n for n in ["feed_inv", "tracker_moments", "tracker_mean", "sum_sq_sub", "tracker_sm2", "collect_rhat_eq_classical",
+                                         "multi_rhat_eq_classical", "collect_rhat_eq_multi", "ema_mem", "p_accept_mem", "p_accept_ema"]],
+        "rel32": 2e-3, "abs32": 1e-6,
+        "level_text": "Theorems (any field of characteristic 0, induction over the update list, every history): the tracker's count, mean and mean of squares are those of exactly the fed states; "
+                      "for n>=2 sm2 is the unbiased variance; collect_rhat from m>=1 trackers of equal count equals the classical var+/W and equals MultiChainTracker::rhat, for any number of parameters; "
+                      "the acceptance estimate is the closed-form EMA of the indicators and stays in [0,1]. Tied to stats.rs by feeding identical update sequences to the real trackers and to the "
+                      "same polymorphic model at Float32/Float; ill-conditioned inputs (f32 mirror and f64 reference disagree) are counted indeterminate.",
+        "level_note": "Trusted: rounding is not modelled (exact-arithmetic theorems, f32 tolerance 2e-3 in the correspondence); ndarray mean_axis/stack semantics; ChainTracker's first-coordinate start value of p_accept is mirrored in the driver glue.",
+        "rule": "update sequences of length 2-5000 (boundary lengths and the 100-row neighbourhood favoured; quick tier up to 1500), 2-16 chains, 1-8 parameters, element types f32/f64/i32/usize, "
+                "iid/AR(1)/sticky/trending/separated series with 30% repeated rows (so that 'state equals previous state' occurs); distinct by (type, chains, draws, parameters)",
+        "trusted": ["floating-point rounding is not modelled; f32 results are compared with the exact-arithmetic model at relative tolerance 2e-3 on inputs the f32 mirror of the model handles stably"],
+        "assumptions": [],
+    },
     "C17": {
         "obligations": [IO + n for n in ["length_flatMap_const", "getElem_flatMap_const", "offset_in_bounds", "offset_injective", "rows_count", "rows_spec",
                                          "rows_obs_major_count", "rows_obs_major_spec", "header_spec", "header_obs_major_spec"]],
